@@ -71,6 +71,13 @@ Definition run_case (line : str) : str :=
         | [cen], Some (i0, e) => show_children cs cen i0 (subdivide_cols sf e)
         | _, _ => s2l "FALSE"
         end
+      else if str_eqb k (s2l "sc") then
+        (* centre of the shrunk column after split_column (c = its centre before) *)
+        let cs := pts_of (qs_of c) in
+        match pts_of (qs_of d), split_model (nat_of_str a) (nat_of_str b) with
+        | [cen], Some (i0, _) => show_pt (qsplit_new_centre cen (qsplit_kept cs cen i0))
+        | _, _ => s2l "FALSE"
+        end
       else if str_eqb k (s2l "tr") then
         let cs := pts_of (qs_of c) in
         match pts_of (qs_of d) with
